@@ -296,9 +296,7 @@ def make_model(inst, cls):
     if inst.X is not None:
         opf = cls(distance=inst.metric)
         X = np.array(inst.X, dtype=float) if inst.Xarr is None else inst.Xarr
-        msg = _drive.poke(opf, _DRV, 0.3)
-        if msg:
-            POKED.append(dict(what=msg, model=cls.__name__, instance=inst.desc()))
+        _drive.poke_report(opf, _DRV, 0.3, inst.desc())
         return opf, X, None
     big, idx = embed_matrix(inst.D)
     if _DRV.random() < 0.35:
@@ -311,9 +309,7 @@ def make_model(inst, cls):
         opf.pre_computed_distance = True
         opf.pre_distances = big
         inst.forms.append("matrix:attribute")
-    msg = _drive.poke(opf, _DRV, 0.3)
-    if msg:
-        POKED.append(dict(what=msg, model=cls.__name__, instance=inst.desc()))
+    _drive.poke_report(opf, _DRV, 0.3, inst.desc())
     N = len(inst.D)
     X = np.zeros((N, 1))
     return opf, X, idx
